@@ -27,21 +27,53 @@ theorem flag_after_table_closed :
     condsAround .writerClose [] (deferredBlocks xs).flatten = [["!writerClosed"]] := by decide +kernel
 
 /-- the merged table is written between opening and closing the writer, into a fresh temporary directory; the inputs
-are opened in the (sorted) selection order from index 0 -/
+are opened in the (sorted) selection order from index 0.  Since bfb8835 the deferred close of the inputs — every element
+of `readers`, unconditionally — is REGISTERED BEFORE the loop that opens them (it used to follow the loop, so an input
+that failed to open or to scan left the ones before it open); the two deferred blocks are exactly the guarded writer
+close and this one. -/
 theorem compaction_steps_in_order :
-    let xs := immediate 0 (itemsOf "simpledb.executeCompaction")
+    let all := itemsOf "simpledb.executeCompaction"
+    let xs := immediate 0 all
     inOrder [.selectCandidates, .sortStrings "paths", .mkdirTempCompaction, .newStreamWriter, .writerOpen, .mergeCompact,
              .writerClose, .saveCompactionFlag] xs = true ∧
-    inSortedFullLoop .openReader "paths" xs = true := by decide +kernel
+    inSortedFullLoop .openReader "paths" xs = true ∧
+    (deferredBlocks all).map acts = [[.writerClose], [.readerClose]] ∧
+    allBefore .readerClose .openReader all = true ∧ inFullLoop .readerClose "readers" all = true ∧
+    condsAround .readerClose [] all = [[]] ∧ occurs .readerClose xs = false := by decide +kernel
 
-/-- the success flag: written, then its writer closed (which makes it readable), nothing else -/
+/-- the success flag: written, then its writer closed (which makes it readable), nothing else.  Since a7ed007 the close
+is deferred right after the writer exists, BEFORE `Open` can fail (so a flag writer that failed to open is closed, too);
+at exit it is still the last action, after the write. -/
 theorem flag_written_then_closed :
-    acts (exitOrder (itemsOf "simpledb.saveCompactionMetadata")) = [.newProtoWriter, .openFlagWriter, .writeFlag, .closeFlagWriter] := by
+    let xs := itemsOf "simpledb.saveCompactionMetadata"
+    acts (exitOrder xs) = [.newProtoWriter, .openFlagWriter, .writeFlag, .closeFlagWriter] ∧
+    xs.take 4 = [.act .newProtoWriter, .deferBegin, .act .closeFlagWriter, .deferEnd] ∧
+    acts (immediate 0 xs) = [.newProtoWriter, .openFlagWriter, .writeFlag] ∧
+    unconditional .openFlagWriter xs = true ∧ unconditional .writeFlag xs = true ∧ noOther xs = true := by
   decide +kernel
 
 /-- a compaction cycle reflects the result after — and only after — `executeCompaction` returned it -/
 theorem reflect_after_execute :
     allBefore .executeCompaction .reflectCompactionResult (itemsOf "simpledb.backgroundCompaction") = true := by decide +kernel
+
+/-- 6dd9211: in both background goroutines the done signal (`doneFlushChannel <- true` / `doneCompactionChannel <- true`)
+is NOT inside a `defer` any more: it is the LAST statement of the normal path, unconditional, AFTER the
+`if err != nil { log.Panicf }` block — so it is not executed on the error path, where the panic now stops the process
+(a deferred send on the unbuffered channel kept the panic from unwinding: the goroutine hung).  The compactor has one
+more signal: in the early return of a database without compactions. -/
+theorem done_signal_not_on_error_path :
+    let f := itemsOf "simpledb.flushMemstoreContinuously"
+    let c := itemsOf "simpledb.backgroundCompaction"
+    occurs .signalFlusherDone (deferredBlocks f).flatten = false ∧ occurs .signalCompactorDone (deferredBlocks c).flatten = false ∧
+    occurs .panicLog (deferredBlocks f).flatten = false ∧ occurs .panicLog (deferredBlocks c).flatten = false ∧
+    condsAround .panicLog [] f = [["err != nil"]] ∧ condsAround .panicLog [] c = [["err != nil"]] ∧
+    condsAround .signalFlusherDone [] f = [[]] ∧ unconditional .signalFlusherDone f = true ∧
+    allBefore .panicLog .signalFlusherDone f = true ∧ allBefore .executeFlush .signalFlusherDone f = true ∧
+    f.getLast? = some (.act .signalFlusherDone) ∧
+    condsAround .signalCompactorDone [] c = [["!db.enableCompactions"], []] ∧
+    c.take 4 = [.ifBegin "!db.enableCompactions", .act .signalCompactorDone, .ret, .ifEnd] ∧
+    allBefore .panicLog .signalCompactorDone (c.drop 4) = true ∧ allBefore .executeCompaction .signalCompactorDone (c.drop 4) = true ∧
+    c.getLast? = some (.act .signalCompactorDone) ∧ noOther f = true ∧ noOther c = true := by decide +kernel
 
 /-- `executeFlush`: the table is written completely, THEN the WAL file that holds the same records is removed, THEN the
 table is opened and added to the readers — each unconditionally except the removal (recovery flushes have no WAL path) -/
@@ -66,18 +98,39 @@ theorem writer_open_creates_in_order :
     [Label.newProtoWriter, .openIndexWriter, .newFileWriter, .openDataWriter, .openMetaFile].all (fun l => unconditional l xs) = true ∧
     noOther xs = true := by decide +kernel
 
+/-- 3b4867f: the clean-up of a failed `Open` is ONE deferred block, registered before the first file is opened, that
+returns at once when `Open` succeeded (`err == nil`) and otherwise closes whichever of index writer, data writer and
+metadata file exists — each behind its own nil check.  Nothing of it runs where it stands, so a successful `Open` hands
+all three over open (the model's flush events continue with `WriteNext` on them). -/
+theorem writer_open_cleanup_only_on_error :
+    let xs := itemsOf "SSTableStreamWriter.Open"
+    deferredBlocks xs =
+      [[.ifBegin "err == nil", .ret, .ifEnd,
+        .ifBegin "writer.indexWriter != nil", .act .closeIndexWriter, .ifEnd,
+        .ifBegin "writer.dataWriter != nil", .act .closeDataWriter, .ifEnd,
+        .ifBegin "writer.metaDataFile != nil", .act .closeMetaFile, .ifEnd]] ∧
+    xs.head? = some .deferBegin ∧
+    [Label.closeIndexWriter, .closeDataWriter, .closeMetaFile].all (fun l => !occurs l (immediate 0 xs)) = true := by
+  decide +kernel
+
 /-- `WriteNext`: the value goes to data.rio before its index entry goes to index.rio -/
 theorem data_written_before_index :
     let xs := itemsOf "SSTableStreamWriter.WriteNext"
     allBefore .dataWrite .indexWrite xs = true ∧ unconditional .dataWrite xs = true ∧ unconditional .indexWrite xs = true ∧
     noOther xs = true := by decide +kernel
 
-/-- `SSTableStreamWriter.Close`: index and data writers are closed where the statement stands (not deferred), the bloom
-filter is written, and the metadata write is the LAST file-content action (only closing the metadata file follows) -/
+/-- `SSTableStreamWriter.Close`: index and data writers are closed where the statement stands (not deferred, not in a
+loop), each exactly once, the bloom filter is written, and the metadata write is the LAST file-content action (only
+closing the metadata file follows).  Since 3b4867f each of the two closes stands behind the nil check of THAT writer and
+nothing else (`Close` stays callable on a writer whose `Open` failed and gave its files back; after a successful `Open`
+both writers exist — `writer_open_cleanup_only_on_error` — so on that path both closes still always run, which is what
+`model_flush_order_matches_source` executes). -/
 theorem meta_written_last :
     let xs := itemsOf "SSTableStreamWriter.Close"
     inOrder [.closeIndexWriter, .closeDataWriter, .writeBloom, .writeMeta] (immediate 0 xs) = true ∧
-    unconditional .closeIndexWriter xs = true ∧ unconditional .closeDataWriter xs = true ∧
+    condsAround .closeIndexWriter [] xs = [["writer.indexWriter != nil"]] ∧
+    condsAround .closeDataWriter [] xs = [["writer.dataWriter != nil"]] ∧
+    loopsAround .closeIndexWriter [] xs = [[]] ∧ loopsAround .closeDataWriter [] xs = [[]] ∧
     lastAmong .writeMeta [.closeIndexWriter, .closeDataWriter, .writeBloom, .dataWrite, .indexWrite, .openMetaFile] (exitOrder xs) = true ∧
     acts (deferredBlocks xs).flatten = [.closeMetaFile] ∧ noOther xs = true := by decide +kernel
 
